@@ -92,11 +92,15 @@ func Genesis(app *chain.App, variant string) map[string]json.RawMessage {
 			{"abbreviation": "C", "name": "carbon", "unit": "metric ton CO2 equivalent", "precision": 6},
 			{"abbreviation": "CC", "name": "carbon2", "unit": "t", "precision": 6},
 			{"abbreviation": "B", "name": "bio", "unit": "ha", "precision": 6}})
-		set("regen.ecocredit.v1.Class", []interface{}{1, m{"key": 1, "id": "C09", "admin": admin.Bytes(), "metadata": "g", "credit_type_abbrev": "C"}})
-		set("regen.ecocredit.v1.ClassIssuer", []m{{"class_key": 1, "issuer": admin.Bytes()}, {"class_key": 1, "issuer": ActorAddr(1).Bytes()}})
-		set("regen.ecocredit.v1.ClassSequence", []m{{"credit_type_abbrev": "C", "next_sequence": 10}, {"credit_type_abbrev": "CC", "next_sequence": 99}})
-		set("regen.ecocredit.v1.Project", []interface{}{1, m{"key": 1, "id": "C09-099", "admin": admin.Bytes(), "class_key": 1, "jurisdiction": "US", "metadata": "p", "reference_id": ""}})
-		set("regen.ecocredit.v1.ProjectSequence", []m{{"class_key": 1, "next_sequence": 100}})
+		// B10 has no project yet while B100 (whose id it is a prefix of) has one; the B sequence stands at 101
+		set("regen.ecocredit.v1.Class", []interface{}{3, m{"key": 1, "id": "C09", "admin": admin.Bytes(), "metadata": "g", "credit_type_abbrev": "C"},
+			m{"key": 2, "id": "B10", "admin": ActorAddr(5).Bytes(), "metadata": "g", "credit_type_abbrev": "B"},
+			m{"key": 3, "id": "B100", "admin": ActorAddr(6).Bytes(), "metadata": "g", "credit_type_abbrev": "B"}})
+		set("regen.ecocredit.v1.ClassIssuer", []m{{"class_key": 1, "issuer": admin.Bytes()}, {"class_key": 1, "issuer": ActorAddr(1).Bytes()}, {"class_key": 2, "issuer": ActorAddr(5).Bytes()}, {"class_key": 3, "issuer": ActorAddr(6).Bytes()}})
+		set("regen.ecocredit.v1.ClassSequence", []m{{"credit_type_abbrev": "C", "next_sequence": 10}, {"credit_type_abbrev": "CC", "next_sequence": 99}, {"credit_type_abbrev": "B", "next_sequence": 101}})
+		set("regen.ecocredit.v1.Project", []interface{}{2, m{"key": 1, "id": "C09-099", "admin": admin.Bytes(), "class_key": 1, "jurisdiction": "US", "metadata": "p", "reference_id": ""},
+			m{"key": 2, "id": "B100-001", "admin": ActorAddr(6).Bytes(), "class_key": 3, "jurisdiction": "US", "metadata": "p", "reference_id": ""}})
+		set("regen.ecocredit.v1.ProjectSequence", []m{{"class_key": 1, "next_sequence": 100}, {"class_key": 3, "next_sequence": 2}})
 		set("regen.ecocredit.v1.BatchSequence", []m{{"project_key": 1, "next_sequence": 999}})
 		// a batch that exists only through the genesis file, with the zero columns of its supply and balance
 		// rows left EMPTY (accepted by the module's ValidateGenesis; no message writes rows like these)
